@@ -27,7 +27,7 @@ CONFIG = dict(
     ],
     bounds="none on the token domain (all 2^64 values); shim capacities: 2 registrations, 3 map entries (never reached by these obligations)",
     manifest=dict(
-        text="Proof over the full 64-bit token domain. Loop-free Kani harnesses drive the real Poller::do_register / do_reregister / add_read_event / select and the real Event::get_token against the mio contract and prove decode(encode(token)) == token and that an event for one descriptor never decodes to another descriptor's waiter. If the identity fails the event loop's lookup of the waiting coroutine misses and only the 10 ms timeout path can wake it - exactly the promptness clause. Tests only ever use small ids or never look at which path woke the coroutine.",
+        text="Proof over the full 64-bit token domain. Loop-free Kani harnesses drive the real Poller::do_register / do_reregister / add_read_event / select and the real Event::get_token against the mio contract and prove decode(encode(token)) == token, that an event for one descriptor never decodes to another descriptor's waiter, that the call which adds a second direction to a registered descriptor registers the token it was given (the event decodes to the waiter that registered last), and that a failed poll (EINTR or any errno) is reported, releases the poll guard and leaves the next poll able to deliver the pending event. If the identity fails the event loop's lookup of the waiting coroutine misses and only the 10 ms timeout path can wake it - exactly the promptness clause. Tests only ever use small ids or never look at which path woke the coroutine.",
         note="Trusted: mio shim (epoll contract as executable specification), dashmap/once_cell shims, 64-bit target, EventLoop::token -> coroutine id mapping read from source (TLS accessor, not executable under Kani); EventLoop::resume -> Scheduler::try_resume dispatch (token -> coroutine lookup in the scheduler) is NOT covered by any unit: the claim is the codec and the per-descriptor delivery.",
         technique="contract-based deductive verification: Kani full-domain harness contracts on the real selector adapter against an assumed mio contract",
     ),
